@@ -39,10 +39,13 @@ impl Uci {
 
     fn uci_loop(&mut self, input: &mut impl BufRead) {
         loop {
-            let mut line = String::new();
-            if input.read_line(&mut line).unwrap() == 0 {
-                break; // End of input
+            let mut raw = Vec::new();
+            match input.read_until(b'\n', &mut raw) {
+                Ok(0) | Err(_) => break, // End of input
+                Ok(_) => {}
             }
+            // A line that is not valid UTF-8 is an unknown command, not a reason to panic
+            let line = String::from_utf8_lossy(&raw);
             let trimmed = line.trim();
             let fields: Vec<_> = trimmed.split_whitespace().collect();
 
